@@ -47,6 +47,15 @@ impl SharedSink {
         };
         SharedSink(Arc::new(Mutex::new(s)))
     }
+    /// a recording destination that already holds `data` (a file written earlier), positioned at 0
+    pub fn recording_over(data: Vec<u8>) -> SharedSink {
+        let s = SinkState {
+            data,
+            log: Some(vec![]),
+            ..Default::default()
+        };
+        SharedSink(Arc::new(Mutex::new(s)))
+    }
     pub fn failing(kind: OpKind, n: usize, sticky: bool) -> SharedSink {
         let s = SinkState {
             fail_at: Some((kind, n)),
@@ -165,7 +174,12 @@ impl Seek for SharedSink {
 /// replay the first k operations of a log into a fresh byte vector (what a crash after the k-th
 /// operation leaves behind)
 pub fn apply_prefix(log: &[Op], k: usize, torn: Option<usize>) -> Vec<u8> {
-    let mut data: Vec<u8> = vec![];
+    apply_prefix_over(vec![], log, k, torn)
+}
+
+/// the first `k` operations of `log` applied to a destination that already holds `data`
+pub fn apply_prefix_over(data: Vec<u8>, log: &[Op], k: usize, torn: Option<usize>) -> Vec<u8> {
+    let mut data: Vec<u8> = data;
     let mut pos: usize = 0;
     for (i, op) in log.iter().enumerate() {
         if i >= k {
